@@ -21,15 +21,15 @@ RULE = ("A: packet histories at one station (distinct by hash of the event list)
         "hop limit, origin); non-trivial = at least one duplicate or forward was observed and judged.")
 ASSUMPTIONS = ["a replay outside the DPL window may legitimately be delivered/forwarded again: the model tracks the ring exactly",
                "omitted forwards (PDR limit, area-size control, SCF stub) are allowed: at-most-once is an upper bound"]
-REQUIRED_COUNTERS = ["A.cbf_overheard_judged", "A.cbf_overheard_after_leaving_the_area", "A.duplicates_judged", "A.forward_copies_compared", "A.rhl01_judged", "A.own_address_judged", "B.floods",
+REQUIRED_COUNTERS = ["A.forward_copies_compared[no-neighbour,scf]", "A.cbf_overheard_judged", "A.cbf_overheard_after_leaving_the_area", "A.duplicates_judged", "A.forward_copies_compared", "A.rhl01_judged", "A.own_address_judged", "B.floods",
                      "B.station_packet_pairs", "B.cbf_overheard_judged"]
 
 KINDS = ("tsb", "gbc_in", "gbc_out", "gac_in", "gac_out", "guc_other", "guc_me", "ls_req_other", "ls_rep_other")
 MY_LAT, MY_LON = 415000000, 21000000
 
 
-def mk_packet(kind, sn, rhl, so_pv, me, de, t_tst, body):
-    tc0 = {"scf": 0, "co": 0, "id": 3}
+def mk_packet(kind, sn, rhl, so_pv, me, de, t_tst, body, scf=0):
+    tc0 = {"scf": scf, "co": 0, "id": 3}
     bh = {"version": 1, "nh": 1, "lt_mult": 6, "lt_base": 2, "rhl": rhl}
     ch = {"nh": 2, "tc": tc0, "mobile": 1, "pl": len(body), "mhl": 255}
     x = {"sn": sn, "so_pv": so_pv}
@@ -78,9 +78,11 @@ def gen_a(rng):
                        "rhl": rng.choice((0, 1, 2, 2, 3, 10, 255, rng.randrange(256))), "de": rng.choice(("nb_newer", "nb_older", "nb_equal", "far")),
                        "plen": rng.choice((0, 5, 200)), "overhear": rng.random() < 0.4,
                        # the station gets a position fix that takes it out of the destination area while its copy waits in the CBF buffer
-                       "move_out": rng.random() < 0.35})
+                       "move_out": rng.random() < 0.35,
+                       # store-carry-forward bit of the traffic class (matters when the forwarder has no neighbour)
+                       "scf": int(rng.random() < 0.3)})
             fresh.append(len(ev) - 1)
-    return {"part": "A", "alg": rng.choice((1, 2)), "dpl": dpl, "events": ev, "src_inside": False}
+    return {"part": "A", "alg": rng.choice((1, 2)), "dpl": dpl, "events": ev, "src_inside": False, "has_nb": rng.random() < 0.7}
 
 
 def run_a_case(c, res):
@@ -91,7 +93,9 @@ def run_a_case(c, res):
         A = w.add("A", mid_of(1), lat=MY_LAT, lon=MY_LON, ports=(2001,),
                   mib_over={"itsGnAreaForwardingAlgorithm": AreaForwardingAlgorithm(c["alg"]), "itsGnDPLLength": c["dpl"]})
         N = w.add("N", mid_of(2), lat=MY_LAT + 900, lon=MY_LON + 900, ports=(2001,))      # a real neighbour (also the 'nb' destination)
-        N.router.gn_data_request_beacon()
+        has_nb = c.get("has_nb", True)
+        if has_nb:
+            N.router.gn_data_request_beacon()        # otherwise the forwarder knows no neighbour at all
         w.settle()
         n_tst = N.router.ego_position_vector.tst.msec
         me = {"addr": {"m": 0, "st": 5, "mid": mid_of(1)}, "tst": 1, "lat": MY_LAT, "lon": MY_LON}
@@ -119,7 +123,7 @@ def run_a_case(c, res):
                     de = {"addr": {"m": 0, "st": 5, "mid": mid_of(2)}, "tst": (n_tst + {"nb_older": 5000, "nb_newer": -5000, "nb_equal": 0}[ev["de"]]) % (1 << 32),
                           "lat": MY_LAT + 1, "lon": MY_LON + 1}
                 body = b"\x07\xd1\x00\x00" + bytes([i & 0xFF]) * ev["plen"]
-                raw = mk_packet(ev["kind"], ev["sn"], ev["rhl"], so_pv, me, de, 0, body)
+                raw = mk_packet(ev["kind"], ev["sn"], ev["rhl"], so_pv, me, de, 0, body, scf=ev.get("scf", 0))
                 pk[i] = {"raw": raw, "src": src, "sn": ev["sn"], "kind": ev["kind"], "de": ev["de"]}
                 p = pk[i]
                 rhl = ev["rhl"]
@@ -171,6 +175,14 @@ def run_a_case(c, res):
                 res.violation(f"C06:delivered-although-not-addressed[{kind}]", f"{kind}", ctx)
             # forwarding happens at once for everything except CBF area forwarding (gbc_in under CBF)
             deferred = c["alg"] == 2 and kind == "gbc_in"
+            if deferred and new_tx:
+                # forwarded at once instead of contending (e.g. the no-neighbour / SCF branch): judged like any immediate
+                # forward; the contention time is still waited for, so that a second transmission would be seen
+                deferred = False
+                w.clock.advance(0.2)
+                w.settle()
+                new_tx = [pp for (_, _, s, pp) in w.ether.wire[tx0:] if s == "A"]
+                res.count("A.cbf_configured_but_forwarded_at_once")
             if deferred and ev.get("overhear") and rhl >= 2:
                 # a duplicate is overheard while the copy waits in the CBF buffer: it must never be sent
                 w.clock.advance(0.0004)
@@ -214,7 +226,11 @@ def run_a_case(c, res):
             got = new_tx[0]
             want = raw[:3] + bytes([rhl - 1]) + raw[4:]
             res.count("A.forward_copies_compared")
-            if kind in ("guc_other", "ls_rep_other") and p["de"] == "nb_newer":
+            if not has_nb:
+                res.count("A.forward_copies_compared[no-neighbour]")
+                if W.dec_packet(raw)["common"]["tc"]["scf"]:
+                    res.count("A.forward_copies_compared[no-neighbour,scf]")
+            if has_nb and kind in ("guc_other", "ls_rep_other") and p["de"] == "nb_newer":
                 # DE is a neighbour whose table PV is strictly newer than the packet's DE PV: refreshed from the table
                 npv = N.router.ego_position_vector
                 spv = W.enc_spv({"addr": {"m": 0, "st": 5, "mid": mid_of(2)}, "tst": npv.tst.msec, "lat": npv.latitude, "lon": npv.longitude})
